@@ -168,7 +168,8 @@ class Evaluator:
         self.opaque_log = []
         self.extra_inputs = []
         self._input_adts = None
-        self._assigned = {}   # further values that denote an Input (e.g. self.input of a wrapper)
+        self._assigned = {}
+        self.emit_sinkw = False     # also record writes into local buffers as in-path events   # further values that denote an Input (e.g. self.input of a wrapper)
 
     def assigned_vars(self, fn):
         """ids of local variables that are re-assigned somewhere in the body (their symbolic value
@@ -567,7 +568,7 @@ class Evaluator:
             ls = self.local_sink(tgt, ctx)
             if ls is not None:
                 ctx.sinks.setdefault(ls, []).append(evn)
-                return (('unit',), pre)
+                return (('unit',), cat(pre, ['SINKW', ls, evn]) if self.emit_sinkw else pre)
             return (('unit',), cat(pre, self.opaque('write to an unknown sink', e, ctx)))
         if tr == 'Encode' and local and name == 'encode_to':
             tgt = argv[1]
@@ -577,7 +578,7 @@ class Evaluator:
             ls = self.local_sink(tgt, ctx)
             if ls is not None:
                 ctx.sinks.setdefault(ls, []).append(evn)
-                return (('unit',), pre)
+                return (('unit',), cat(pre, ['SINKW', ls, evn]) if self.emit_sinkw else pre)
             return (('unit',), cat(pre, self.opaque('encode_to into an unknown sink', e, ctx)))
         if tr == 'Encode' and local and name == 'encode':
             return (('encoded', e['ga'][0], strip(argv[0])), pre)
@@ -765,6 +766,9 @@ class Evaluator:
         ls = self.local_sink(sl, ctx)
         if ls is not None and ls in ctx.sinks:
             return cat(*ctx.sinks[ls])
+        if sl[0] == 'call' and sl[1] in ('as_bytes', 'as_slice', 'as_byte_slice', 'as_raw_slice', 'to_vec', 'as_str'):
+            # the raw bytes of the value, without any framing
+            return ['write', sl]
         return self.opaque('callback argument of unrecognised form', e, ctx)
 
 
@@ -983,6 +987,8 @@ def tstr(t):
         return 'SET(%s %s= %s)' % (vstr(t[1]), t[3] or '', vstr(t[2]))
     if k == 'MUTCALL':
         return 'mut:%s(%s)' % (t[1], ', '.join(vstr(a) for a in t[3]))
+    if k == 'SINKW':
+        return 'sink%s<-%s' % (t[1], tstr(t[2]))
     if k == 'CFG':
         return 'cfg'
     if k == 'COLLECT':
